@@ -3,6 +3,7 @@
 package vtime
 
 import (
+	"sort"
 	"sync"
 	"time"
 )
@@ -11,6 +12,7 @@ var (
 	mu      sync.Mutex
 	virtual bool
 	tickers []*Ticker
+	vnow    time.Duration // virtual time elapsed since SetVirtual (used by AdvanceBy)
 )
 
 // SetVirtual switches virtual mode (affects tickers created afterwards) and forgets earlier tickers.
@@ -19,6 +21,7 @@ func SetVirtual(v bool) {
 	defer mu.Unlock()
 	virtual = v
 	tickers = nil
+	vnow = 0
 }
 
 type Ticker struct {
@@ -27,6 +30,7 @@ type Ticker struct {
 	real     *time.Ticker
 	stopped  bool
 	Interval time.Duration
+	next     time.Duration // virtual time of the next tick (AdvanceBy)
 }
 
 func NewTicker(d time.Duration) *Ticker {
@@ -40,7 +44,7 @@ func NewTicker(d time.Duration) *Ticker {
 		panic("non-positive interval for NewTicker")
 	}
 	c := make(chan time.Time, 1)
-	t := &Ticker{C: c, c: c, Interval: d}
+	t := &Ticker{C: c, c: c, Interval: d, next: vnow + d}
 	tickers = append(tickers, t)
 	return t
 }
@@ -57,7 +61,53 @@ func (t *Ticker) Stop() {
 func (t *Ticker) Reset(d time.Duration) {
 	if t.real != nil {
 		t.real.Reset(d)
+		return
 	}
+	if d <= 0 {
+		panic("non-positive interval for Ticker.Reset")
+	}
+	mu.Lock()
+	defer mu.Unlock()
+	t.Interval = d
+	t.next = vnow + d
+}
+
+// AdvanceBy moves virtual time forward by d and delivers a tick to every live virtual ticker whose period has
+// elapsed meanwhile (one tick, like a real ticker whose reader was slow; a ticker with a longer period does NOT
+// fire). Returns how many ticks were delivered.
+func AdvanceBy(d time.Duration) int {
+	mu.Lock()
+	defer mu.Unlock()
+	vnow += d
+	n := 0
+	for _, t := range tickers {
+		if t.stopped || t.next > vnow {
+			continue
+		}
+		for t.next <= vnow {
+			t.next += t.Interval
+		}
+		select {
+		case t.c <- time.Now():
+			n++
+		default:
+		}
+	}
+	return n
+}
+
+// Periods lists the periods of the live virtual tickers (sorted): part of a system's state.
+func Periods() []time.Duration {
+	mu.Lock()
+	defer mu.Unlock()
+	var ps []time.Duration
+	for _, t := range tickers {
+		if !t.stopped {
+			ps = append(ps, t.Interval)
+		}
+	}
+	sort.Slice(ps, func(i, j int) bool { return ps[i] < ps[j] })
+	return ps
 }
 
 // Live returns the number of virtual tickers that have not been stopped.
